@@ -20,13 +20,18 @@ def cb(v):
     return '[' + '; '.join('true' if b else 'false' for b in v) + ']'
 
 
+SMALL_EXACT_TURN = [0]
+CLOUD_KINDS = ['lattice', 'lattice_noise', 'two_lattices', 'random', 'small_exact', 'tight_limits', 'limit_edge', 'doublets', 'small_exact']
+
+
 def gen_cloud(rng, kind=None):
-    kind = kind or str(rng.choice(['lattice', 'lattice_noise', 'two_lattices', 'random', 'small_exact', 'tight_limits', 'limit_edge']))
+    kind = kind or str(rng.choice(CLOUD_KINDS))
     la, lb = rng.uniform(18, 35, 2)
     fine = elong = False
-    if kind == 'small_exact' and rng.random() < 0.6:
+    SMALL_EXACT_TURN[0] += 1 if kind == 'small_exact' else 0
+    if kind == 'small_exact' and SMALL_EXACT_TURN[0] % 5 != 0:
         # a coarse candidate vector would miss the far lattice points: long lattice vectors at the default tolerance, or a tight tolerance
-        v_ = int(rng.integers(0, 3))
+        v_ = [0, 1, 2, 2][SMALL_EXACT_TURN[0] % 5 - 1]              # in turn: long vectors, tight tolerance, elongated cell (twice), plain
         if v_ == 0:
             la, lb = rng.uniform(100, 250, 2)
         elif v_ == 1:
@@ -41,7 +46,23 @@ def gen_cloud(rng, kind=None):
     b = lb * np.array([np.sin(ang + d), np.cos(ang + d)])
     zero = rng.uniform(50, 80, 2)
     cand = np.array([(i, j) for i in range(-2, 3) for j in range(-2, 3) if (i, j) != (0, 0)])
-    if kind == 'small_exact':
+    if kind == 'doublets':
+        # rows of close doublets (split spots): the peaks sit on integer positions of a "lattice" whose two vectors are nearly parallel --
+        # the user's candidate list proposes exactly these two vectors, in any of the four quadrants (also on either side of the +-pi cut of the
+        # polar angle); no match may have vectors closer than min_angle
+        L_, d_ = float(rng.uniform(25, 35)), float(rng.uniform(1.0, 2.0))
+        sy, sx = [(1, -1), (1, 1), (-1, -1), (-1, 1)][int(rng.integers(0, 4))]
+        if rng.integers(0, 2):
+            va, vb = np.array([d_, sx * L_]), np.array([-d_, sx * L_])
+        else:
+            va, vb = np.array([sy * L_, d_]), np.array([sy * L_, -d_])
+        zero = np.array([64.0, 114.0]) if sx < 0 else np.array([64.0, 20.0])
+        idx = np.array([(0, 0), (1, 0), (0, 1), (2, 0), (0, 2), (1, 1)])
+        pts = zero + idx @ np.array([va, vb])
+        w = np.ones(len(pts))
+        true = None
+        dbl_cand = [va.copy(), vb.copy()]
+    elif kind == 'small_exact':
         # a complete noise-free lattice patch of at most ten points (n x m, both >= 2) that contains the zero point
         n1, m1 = [(2, 2), (2, 3), (3, 2), (3, 3), (2, 4), (4, 2), (2, 5), (5, 2)][int(rng.integers(0, 8))]
         if elong:
@@ -101,6 +122,9 @@ def gen_cloud(rng, kind=None):
             params.update(tolerance=float(rng.choice([0.5, 0.3, 1.0])))
     use_cand = bool(rng.integers(0, 3) == 0)
     candv = [a + rng.normal(0, 0.2, 2), b + rng.normal(0, 0.2, 2), a + b] if use_cand else None
+    if kind == 'doublets':
+        candv = dbl_cand
+        params.update(tolerance=3.0, min_match=3, min_delta=0.0, max_delta=np.inf, min_angle=np.pi / 10)
     argmode = 'all'
     if kind != 'small_exact':
         r = rng.random()
@@ -352,7 +376,7 @@ def run(ctx):
     exprs, meta = [], []
     nprogress = 0
     for k in range(ctx.n(60, 600)):
-        c = gen_cloud(rng)
+        c = gen_cloud(rng, CLOUD_KINDS[k % len(CLOUD_KINDS)])          # every kind of cloud in turn
         rec = []
         try:
             matcher, (matches, unmatched, weak) = run_full(c, rec)
@@ -413,7 +437,7 @@ def run(ctx):
 
     # (S) statement
     for k in range(ctx.n(150, 2000)):
-        c = gen_cloud(rng)
+        c = gen_cloud(rng, CLOUD_KINDS[k % len(CLOUD_KINDS)])          # every kind of cloud in turn
         fail = stmt_failure(c)
         ctx.count(1)
         if fail:
